@@ -57,6 +57,13 @@ def build_source(src, holder):
         Ys = list(kw["Y"])
         holder["X"], holder["Y"] = Xs, Ys
         return cb.Environments.from_supervised(Xs, Ys, label_type=kw.get("label_type"))
+    if kind == "supervised_src":
+        # a caller-owned Source object yielding (features, label) pairs, with its own params mapping (also caller-owned)
+        from coba.pipes import IdentitySource
+        rows = [(list(x), y) for x, y in zip(kw["X"], kw["Y"])]
+        sp = {"src": "mine", "rows": len(rows)}
+        holder["X"], holder["source_params"] = rows, sp
+        return cb.Environments.from_supervised(IdentitySource(rows, sp), label_type=kw.get("label_type"))
     if kind == "supervised_csv":
         lines = list(kw["lines"])
         holder["lines"] = lines
@@ -134,7 +141,20 @@ def canon_val(v, depth=0):
     return ("obj", type(v).__name__)
 
 
-def canon(inter):
+class _Any:
+    """Wildcard for a value the reader did not look at."""
+    def __eq__(self, o): return True
+    def __ne__(self, o): return False
+    def __repr__(self): return "*"
+    __hash__ = None
+
+
+ANY = _Any()
+
+
+def canon(inter, look="all"):
+    """look: which values of reward / feedback callables the reader asks for - "all" (every action, in order), "rev" (every action, last
+    first), "one:j" (only action j, as a learner that only sees the outcome of what it played), "none"."""
     out = {}
     actions = inter.get("actions") if hasattr(inter, "get") else None
     for k in inter.keys():
@@ -143,6 +163,13 @@ def canon(inter):
             try:
                 if actions is not None and len(actions) and isinstance(actions[0], (list, tuple)) and _is_batch(inter):
                     out[k] = ("f-batch", repr(type(v).__name__))
+                elif actions is not None and len(actions) and look != "all":
+                    n = len(actions)
+                    idx = list(range(n - 1, -1, -1)) if look == "rev" else [] if look == "none" else [int(look.split(":")[1]) % n]
+                    vals = [ANY] * n
+                    for j in idx:
+                        vals[j] = canon_val(v(actions[j]))
+                    out[k] = ("f", tuple(vals))
                 elif actions is not None and len(actions):
                     out[k] = ("f", tuple(canon_val(v(a)) for a in actions))
                 else:
@@ -164,7 +191,7 @@ def _is_batch(inter):
 
 def snapshot_inputs(holder):
     snap = {}
-    for k in ("X", "Y", "lines"):
+    for k in ("X", "Y", "lines", "source_params"):
         if k in holder:
             snap[k] = copy.deepcopy(holder[k])
     if "learners" in holder:
@@ -196,6 +223,8 @@ def gen_src(rng):
         w = len(Xs[0])
         Xs = [x[:w] + [0] * (w - len(x)) for x in Xs]
         Ys = [round(rng.random(), 2) if reg else rng.choice(["a", "b", "c"]) for _ in range(m)]
+        if rng.random() < 0.25:
+            return ["supervised_src", {"X": Xs, "Y": Ys, "label_type": "r" if reg else weighted(rng, [("c", 2), (None, 1)])}]
         return ["supervised_xy", {"X": Xs, "Y": Ys, "label_type": "r" if reg else weighted(rng, [("c", 2), (None, 1)]),
                                   "mixed_rows": rng.random() < 0.3}]
     if k == "supervised_csv":
@@ -283,6 +312,10 @@ def gen_ops(rng, src):
     return ops
 
 
+def _gen_look(rng):
+    return weighted(rng, [(f"one:{rng.randrange(4)}", 4), ("rev", 2), ("none", 1)])
+
+
 def gen_history(rng):
     hist = []
     for _ in range(3 + rng.randrange(9)):
@@ -292,9 +325,13 @@ def gen_history(rng):
                                      "close": weighted(rng, [("now", 3), ("drop", 3), ("later", 3), ("never", 1)]), "after": 1 + rng.randrange(3)}])
         elif o == "pickle":
             hist.append(["pickle", {"keep": weighted(rng, [("copy", 2), ("both", 1)])}])
+        elif o == "full":
+            hist.append([o, {"look": _gen_look(rng)} if rng.random() < 0.35 else {}])
         else:
             hist.append([o, {}])
-    if not any(h[0] == "full" for h in hist):
+        if o == "partial" and rng.random() < 0.35:
+            hist[-1][1]["look"] = _gen_look(rng)
+    if not any(h[0] == "full" and not h[1].get("look") for h in hist):
         hist.append(["full", {}])
     return hist
 
@@ -305,9 +342,9 @@ class C04:
     design_ref = "DESIGN.md 3.4"
     tiers = {"quick": {"runs": 60000, "budget_s": 80, "chunk": 150, "twice_every": 0, "shrink_s": 40},
              "thorough": {"runs": 1500000, "budget_s": 840, "chunk": 200, "twice_every": 0, "shrink_s": 90}}
-    rule = ("one run = one environment (synthetic / lambda / class-based / supervised from sequences, CSV or LibSVM lines / result-based source "
+    rule = ("one run = one environment (synthetic / lambda / class-based / supervised from sequences, a caller-owned Source object, CSV / ARFF / LibSVM lines / result-based source "
             "+ 0-5 built-in filters with sampled parameters) and one history of 3-12 operations on that one object: full read, partial read of k "
-            "items whose close() is delivered now / by dropping the reference / after j later operations / never, params look-up, pickle round "
+            "items (a reader may look at every outcome of the reward/feedback functions, at one action's only, or in reverse order) whose close() is delivered now / by dropping the reference / after j later operations / never, params look-up, pickle round "
             "trip, materialize(), cache(), chunk(), save()+from_save(), forced gc; specs whose pristine first read raises are discarded; "
             "non-trivial = the history contains an abandoned read followed by another read; distinct = digest of (spec, history)")
     assumptions = ["inputs are re-iterable (lists, ListSource); specs whose first read on a fresh twin raises are discarded",
@@ -339,6 +376,19 @@ class C04:
             out["counters"][f"discarded.src.{cfg['src'][0]}"] = 1
             out["sample"] = None
             return out
+        if any(a.get("look") for _, a in cfg["history"]):
+            # readers that look at some outcomes only / in another order are used only where the outcome functions of a FRESH environment do
+            # not depend on the order of asking (a Grounded environment whose actions were rewritten by a later filter does: its feedback
+            # no longer recognises the actions - a filter-composition matter outside C04); otherwise the twin's values are no reference
+            try:
+                order_free = [canon(i, "rev") for i in build_env(cfg, {}).read()] == R
+            except Exception:
+                order_free = False
+            if not order_free:
+                cfg = copy.deepcopy(cfg)
+                for _, a in cfg["history"]:
+                    a.pop("look", None)
+                out["counters"]["reach.outcome_functions_depend_on_asking_order_looks_dropped"] = 1
         holder = {}
         tmp = None
         vios = {}
@@ -365,7 +415,9 @@ class C04:
                 label = f"step {step} {op}{a if a else ''}"
                 try:
                     if op == "full":
-                        got = [canon(i) for i in e.read()]
+                        got = [canon(i, a.get("look", "all")) for i in e.read()]
+                        if a.get("look"):
+                            out["counters"]["reach.read_looking_at_some_outcomes_only"] = out["counters"].get("reach.read_looking_at_some_outcomes_only", 0) + 1
                         read_objs.add(id(e))
                         read_after_abandon |= abandoned
                         self._cmp(got, R, label, vios, cfg)
@@ -374,7 +426,7 @@ class C04:
                         got = []
                         for _ in range(a["k"]):
                             try:
-                                got.append(canon(next(it)))
+                                got.append(canon(next(it), a.get("look", "all")))
                             except StopIteration:
                                 break
                         read_after_abandon |= abandoned
@@ -483,6 +535,8 @@ class C04:
         for i in range(len(cfg["ops"]) - 1, -1, -1):
             c = copy.deepcopy(cfg); del c["ops"][i]; yield c
         for i, (op, a) in enumerate(cfg["history"]):
+            if a.get("look"):
+                c = copy.deepcopy(cfg); del c["history"][i][1]["look"]; yield c
             if op == "partial":
                 if a["k"] > 1:
                     c = copy.deepcopy(cfg); c["history"][i][1]["k"] = a["k"] // 2; yield c
